@@ -31,7 +31,7 @@ def kwargs_of(optset, vals, fn):
 
 def snap_array(a):
     import numpy as np
-    comps = list(a._xyz.values()) if hasattr(a, "_xyz") else [a]
+    comps = list(common.comps_of(a).values())
     return [(c._array.copy(), str(c.unit), c.name) for c in comps] + [a.name]
 
 
